@@ -166,4 +166,62 @@ base conclusion) -/
 example : (Authored.mk 0 [.kid .ref (.mk 1 .nil), .reenter, .add]).oneAdd = true ∧
     (Authored.mk 0 [.kid .ref (.mk 1 .nil), .reenter, .add]).toProg.unambiguous = true := by decide
 
+
+/-! the `authoredAt` form of the earlier bounded theorems, without the bound -/
+
+theorem kidsOfItems_itemsOfKids : ∀ zs : Kids, kidsOfItems (itemsOfKids zs) = zs
+  | .nil => rfl
+  | .cons k p rest => by simp only [itemsOfKids, kidsOfItems, kidsOfItems_itemsOfKids rest]
+
+theorem kidsOfItems_skip_add : ∀ l1 l2 : List Item, kidsOfItems (l1 ++ Item.add :: l2) = kidsOfItems (l1 ++ l2)
+  | [], l2 => rfl
+  | .kid k p :: l1, l2 => by simp only [List.cons_append, kidsOfItems, kidsOfItems_skip_add l1 l2]
+  | .reenter :: l1, l2 => by simp only [List.cons_append, kidsOfItems, kidsOfItems_skip_add l1 l2]
+  | .add :: l1, l2 => by simp only [List.cons_append, kidsOfItems, kidsOfItems_skip_add l1 l2]
+
+theorem mem_itemsOfKids : ∀ (zs : Kids) (it : Item), it ∈ itemsOfKids zs → ∃ k p, it = .kid k p
+  | .nil, it, h => by simp [itemsOfKids] at h
+  | .cons k p rest, it, h => by
+    simp only [itemsOfKids, List.mem_cons] at h
+    rcases h with rfl | h
+    · exact ⟨k, p, rfl⟩
+    · exact mem_itemsOfKids rest it h
+
+theorem authoredAt_toProg (p : Prog) (k : Nat) : (p.authoredAt k).toProg = p := by
+  cases p with
+  | mk b kids =>
+    simp only [Authored.toProg, Prog.authoredAt, Prog.blk, Prog.kids, kidsOfItems_skip_add, List.take_append_drop,
+      kidsOfItems_itemsOfKids]
+
+theorem authoredAt_oneAdd (p : Prog) (k : Nat) : (p.authoredAt k).oneAdd = true := by
+  have hnil : ∀ (f : Item → Bool), (∀ k p, f (.kid k p) = false) → ∀ l : List Item,
+      (∀ it ∈ l, ∃ k p, it = Item.kid k p) → l.filter f = [] := by
+    intro f hf l hl
+    rw [List.filter_eq_nil_iff]
+    intro it hit
+    obtain ⟨k, p, rfl⟩ := hl it hit
+    simp [hf]
+  simp only [Authored.oneAdd, Prog.authoredAt, List.filter_append, List.filter_cons, ↓reduceIte]
+  rw [hnil _ (fun _ _ => rfl) _ (fun it hit => mem_itemsOfKids p.kids it (List.mem_of_mem_take hit)),
+    hnil _ (fun _ _ => rfl) _ (fun it hit => mem_itemsOfKids p.kids it (List.mem_of_mem_drop hit))]
+  rfl
+
+theorem oneBlock_toProg (a : Authored) : a.oneBlock.toProg = a.toProg := by
+  simp only [Authored.toProg, Authored.oneBlock, kidsOfItems_filter]
+
+theorem oneBlock_oneAdd (a : Authored) : a.oneBlock.oneAdd = a.oneAdd := by
+  simp only [Authored.oneAdd, Authored.oneBlock]
+  rw [filter_add_filter _ rfl (fun _ _ => rfl) rfl]
+
+/-- **C08_build_authored_at.** `C08_build_partial_authored` without the bound on the number of branches (and
+without the bound on `k`): any unambiguous program, written in any number of `with rule:` blocks, with the base
+`Add` after any `k` of its branches. -/
+theorem C08_build_authored_at (p : Prog) (hu : p.unambiguous = true) (k : Nat) (a : Authored)
+    (ha : a.oneBlock = p.authoredAt k) :
+    ∃ t, (buildA Quirks.today a).bind BState.tree = some t ∧ WellFormed t p.toRule := by
+  have hprog : a.toProg = p := by rw [← oneBlock_toProg, ha, authoredAt_toProg]
+  have hone : a.oneAdd = true := by rw [← oneBlock_oneAdd, ha, authoredAt_oneAdd]
+  have := C08_build_authored a hone (hprog ▸ hu)
+  rwa [hprog] at this
+
 end KrroodVerif.Rdr
